@@ -1,6 +1,7 @@
 #!/bin/sh
-# run every thorough check once, sequentially; print one line per check
-for id in C16 C20 C19 C15 C07 C17 C01 C02 C03 C18 C05 C09 C08 C06 C04 C11 C12 C13 C14 C10; do
+# run thorough checks once, sequentially (all, or the ids given); print one line per check
+ids="${*:-C16 C20 C19 C15 C07 C17 C01 C02 C03 C18 C05 C09 C08 C06 C04 C11 C12 C13 C14 C10}"
+for id in $ids; do
   t0=$(date +%s)
   ./check $id --tier thorough > thorough_$id.log 2>&1
   rc=$?
